@@ -139,7 +139,11 @@ impl Report {
         for (k, v) in o.extra {
             match (self.extra.get(&k).and_then(|x| x.as_u64()), v.as_u64()) {
                 (Some(a), Some(b)) => {
-                    self.extra.insert(k, json!(a + b));
+                    if k.starts_with("max_") || k.ends_with("_bound") {
+                        self.extra.insert(k, json!(a.max(b)));
+                    } else {
+                        self.extra.insert(k, json!(a + b));
+                    }
                 }
                 _ => {
                     self.extra.entry(k).or_insert(v);
